@@ -397,6 +397,11 @@ def c12j(ctx, prog):
     o = ctx.ob("C12.j", "BitVec/decoded-vector-cut-to-the-bit-length", "K1+K5", "Decode for BitVec truncates the rebuilt vector to the length it read, before returning it")
     ds = [b for b in prog.all_bodies(["qbice_serialize"]) if b.rec.get("trait") == wire.DEC_TRAIT and (b.rec.get("self_ty") or "").startswith("bitvec::vec::BitVec")]
     o.sites = len(ds)
+    if not ds and ctx.key_prefix:
+        # the workspace build does not enable the serializer's `bitvec` feature: the impl is not part of that configuration
+        # (the main shape, which does enable it, keeps the anchor requirement)
+        o.sites = 0
+        return
     if len(ds) != 1:
         ctx.fail(o, "(program)", "anchor missing: Decode for BitVec (found %d)" % len(ds))
         return
@@ -410,6 +415,108 @@ def c12j(ctx, prog):
         for k in oks:
             if not b.site_dominates(tr[0], k):
                 ctx.fail(o, k, "Decode for BitVec can return the vector before cutting it to the bit length")
+
+
+WIDE = ("u16", "u32", "u64", "u128")
+
+
+def _skeleton(b, width):
+    """A canonical text of a body: live non-cleanup blocks in reverse post-order, locals renamed by first appearance, the
+    value's integer type and the constant equal to its bit width abstracted, line numbers and messages dropped."""
+    import json as _json
+    order = [bb for bb in b._rpo() if not b.blocks[bb]["cleanup"]]
+    pos = {bb: i for i, bb in enumerate(order)}
+    names = {}
+
+    def loc(l):
+        return names.setdefault(l, "L%d" % len(names))
+
+    def norm(x):
+        if isinstance(x, dict):
+            if set(x) >= {"ty", "s"}:                    # a constant
+                ty, sv = x["ty"], x.get("v", x["s"])
+                if ty == "&str":
+                    return "MSG"
+                if str(sv) == str(width) and ty != "u8":
+                    sv = "BITS"
+                return "c:%s:%s" % ("W" if ty in WIDE else ty, sv)
+            return {k: norm(v) for k, v in sorted(x.items()) if k not in ("line", "exp", "unwind", "gargs", "ghead", "self_ty", "res_key", "res_path", "key")}
+        if isinstance(x, list):
+            if len(x) == 2 and isinstance(x[0], int) and isinstance(x[1], list):      # a place
+                return [loc(x[0]), x[1]]
+            return [norm(v) for v in x]
+        if isinstance(x, str):
+            # the shift amount is checked as a u32 whatever the width: all wide unsigned types are one abstract type
+            return re.sub(r"\bu(16|32|64|128)\b", "W", x)
+        return x
+    out = []
+    for bb in order:
+        blk = b.blocks[bb]
+        st = [norm(s_) for s_ in blk["stmts"] if s_["k"] == "assign"]
+        t = dict(blk["term"])
+        for k in ("t", "imag", "otherwise"):
+            if isinstance(t.get(k), int):
+                t[k] = "B%d" % pos.get(t[k], -1)
+        if "targets" in t:
+            t["targets"] = [[v, "B%d" % pos.get(x, -1)] for v, x in t["targets"]]
+        out.append(_json.dumps([st, norm(t)], sort_keys=True))
+    return out
+
+
+def c12k(ctx, prog):
+    """The LEB128 READERS are not const and so out of the witness's reach (C12.g decides the writers and zig-zag).  What is
+    in the shape of the code: (1) the four width variants are siblings and must be the same loop up to the width, (2) the
+    Ok exit is taken exactly on the edge where the byte's continuation bit (0x80) is clear - the writer sets that bit on
+    every byte but the last, (3) the payload mask / the shift step are the writer's 0x7f / 7."""
+    o = ctx.ob("C12.k", "varint-readers/siblings-agree-and-stop-on-a-clear-continuation-bit", "K3+K6", "read_varint_u16/u32/u64/u128 are the same loop up to the width; Ok is returned on the clear-0x80 edge; payload mask 0x7f, shift step 7")
+    sk = {}
+    for w in (16, 32, 64, 128):
+        bs = [b for b in prog.find(r"PostcardDecoder::read_varint_u%d$" % w)]
+        if len(bs) != 1:
+            ctx.fail(o, "(program)", "anchor missing: PostcardDecoder::read_varint_u%d (found %d)" % (w, len(bs)))
+            return
+        b = ctx.touch(bs[0])
+        sk[w] = _skeleton(b, w)
+        o.sites += 1
+        # (2) polarity of the exit
+        oks = b.aggregates(r"core::result::Result$", "Ok")
+        tests = []
+        for bb in b.live_blocks:
+            t = b.blocks[bb]["term"]
+            if t["k"] != "switch" or t.get("ty") != "bool":
+                continue
+            l = op_local(t["op"])
+            for _s, dk, dn in (b.defs.get(l) or []):
+                rv = dn.get("rv") if dk == "assign" else None
+                if not rv or rv["k"] != "bin" or rv["op"] not in ("Eq", "Ne", "Lt", "Ge"):
+                    continue
+                a_l, c_ = op_local(rv["a"]), const_int(rv["b"])
+                false_t = [x for v, x in t["targets"] if v == "0"][0]
+                true_t = t["otherwise"]
+                if rv["op"] in ("Eq", "Ne") and c_ == 0:
+                    inner = [dn2["rv"] for _s2, dk2, dn2 in (b.defs.get(a_l) or []) if dk2 == "assign" and dn2["rv"].get("k") == "bin"]
+                    if any(i["op"] == "BitAnd" and const_int(i["b"]) == 128 for i in inner):
+                        tests.append((bb, true_t if rv["op"] == "Eq" else false_t, false_t if rv["op"] == "Eq" else true_t))
+                elif rv["op"] in ("Lt", "Ge") and c_ == 128 and (rv["b"].get("c") or {}).get("ty") == "u8":
+                    tests.append((bb, true_t if rv["op"] == "Lt" else false_t, false_t if rv["op"] == "Lt" else true_t))
+        if len(tests) != 1 or len(oks) != 1:
+            ctx.fail(o, Site(b, 0, 0), "%s: expected one test of the continuation bit (`byte & 0x80 == 0` or `byte < 0x80`) and one Ok exit, found %d / %d - unrecognised reader shape" % (b.name, len(tests), len(oks)))
+            continue
+        bb, clear_t, set_t = tests[0]
+        if not b.edge_dominates((bb, clear_t), oks[0].bb) or oks[0].bb in b.reachable([set_t], removed_nodes=[bb]):
+            ctx.fail(o, oks[0], "%s returns the accumulated value on the edge where the continuation bit 0x80 is SET (or not only where it is clear): the writer marks every byte but "
+                     "the last with that bit, so any value is cut after its first byte or read past its end" % b.name)
+        # (3) constants
+        masks = [const_int(x.node["rv"]["b"]) for x in b.sites() if not x.is_term and x.node.get("k") == "assign" and x.node["rv"].get("k") == "bin" and x.node["rv"]["op"] == "BitAnd"]
+        steps = [const_int(x.node["rv"]["b"]) for x in b.sites() if not x.is_term and x.node.get("k") == "assign" and x.node["rv"].get("k") == "bin" and x.node["rv"]["op"] in ("Add", "AddWithOverflow")]
+        if 127 not in masks or not set(masks) <= {127, 128} or steps != [7]:   # the 0x80 test itself is recognised above, in either idiom
+            ctx.fail(o, Site(b, 0, 0), "%s: payload mask / continuation mask / shift step are %s / %s, the writer uses 0x7f, 0x80 and 7 bits per byte" % (b.name, sorted(masks), steps))
+    ref = sk[64]
+    for w in (16, 32, 128):
+        if sk[w] != ref:
+            i = next((i for i, (x, y) in enumerate(zip(sk[w], ref)) if x != y), min(len(sk[w]), len(ref)))
+            ctx.fail(o, Site(prog.find(r"PostcardDecoder::read_varint_u%d$" % w)[0], 0, 0), "read_varint_u%d is not the same loop as read_varint_u64 up to the width (first difference at block #%d of the "
+                     "reverse post-order): the four readers serve one writer family and must agree on test polarity, masks, step and the overflow guard" % (w, i))
 
 
 def c12i(ctx, prog):
@@ -451,6 +558,7 @@ def run(ctx):
     ctx.run_clause("C12.c", lambda c: c12c(c, prog))
     ctx.run_clause("C12.i", lambda c: c12i(c, prog))
     ctx.run_clause("C12.j", lambda c: c12j(c, prog))
+    ctx.run_clause("C12.k", lambda c: c12k(c, prog))
     # the derive macros: their fixtures live in the serializer's unit-test module (unit/tuple/named structs, enums with
     # unit/tuple/struct variants, generics, #[serialize(skip)]); analysed, never run
     def fixtures(c):
